@@ -76,7 +76,6 @@ def proof_step(prop_id, cfg):
     if bad:
         res["log"] = "forbidden constructs:\n" + "\n".join(bad)
         return res
-    ok, log = model.make_coq()
     pfiles = [cfg["coq"]] + list(cfg.get("coq_extra", []))
     src = ""
     for pf in pfiles:
@@ -85,6 +84,8 @@ def proof_step(prop_id, cfg):
     thms = re.findall(r"^\s*(?:Theorem|Corollary)\s+(\w+)", src, re.M)
     res["theorems"] = thms
     res["obligations"] = len(thms)
+    # build exactly what this property's theorems depend on (a full .vo build of those files, never -vos)
+    ok, log = model.make_coq(target=" ".join(pf[:-2] + ".vo" for pf in pfiles))
     if not ok:
         res["log"] = log[-3000:]
         m = re.search(r'File "\./([^"]+)", line (\d+)', log)
@@ -124,13 +125,13 @@ def run_pair(fam, drv, cases, jobs=8):
         # acceptor shape: the model reads the case followed by a line [-1] and the implementation's output
         impl = runner.run_batch([drv] + getattr(fam, "DRIVER_ARGS", []), cases, 10.0, fam.NAME + "-impl")
         piped = [c + [[-1]] + (o if isinstance(o, list) else [[-2]]) for c, o in zip(cases, impl)]
-        mod = runner.run_batch([model.RUNNER, fam.MODEL_FAMILY], piped, 10.0, fam.NAME + "-model")
+        mod = runner.run_batch([model.runner_path(fam.MODEL_FAMILY), fam.MODEL_FAMILY], piped, 10.0, fam.NAME + "-model")
         return impl, mod
     chunks = [cases[i::jobs] for i in range(jobs)] if len(cases) >= 64 else [cases]
     chunks = [c for c in chunks if c]
     with cf.ThreadPoolExecutor(max_workers=2 * len(chunks)) as ex:
         fi = [ex.submit(runner.run_batch, [drv] + getattr(fam, "DRIVER_ARGS", []), c, 10.0, fam.NAME + "-impl") for c in chunks]
-        fm = [ex.submit(runner.run_batch, [model.RUNNER, fam.MODEL_FAMILY], c, 10.0, fam.NAME + "-model") for c in chunks]
+        fm = [ex.submit(runner.run_batch, [model.runner_path(fam.MODEL_FAMILY), fam.MODEL_FAMILY], c, 10.0, fam.NAME + "-model") for c in chunks]
         ri = [f.result() for f in fi]
         rm = [f.result() for f in fm]
     if len(chunks) == 1:
@@ -201,8 +202,12 @@ def check(prop_id, tier, seed):
     proof_ok = pr["ok"]
 
     # 2. build the working tree + drivers, and the model runner
-    ok_model, mlog = model.build_runner()
     fams = [family_module(f) for f in cfg["families"]]
+    ok_model, mlog = True, ""
+    for fam in fams:
+        okf, lg = model.build_runner_for(fam.MODEL_FAMILY)
+        if not okf:
+            ok_model, mlog = False, lg
     drivers = {}
     build_info = {}
     build_fail = None
